@@ -187,6 +187,9 @@ func runCore(sc *Scenario, res *Result, keepLog bool) {
 	for _, c := range r.named {
 		c()
 	}
+	for _, c := range r.ownCancels {
+		c()
+	}
 	s.Run(20000, nil, time.Now().Add(settleHorizon))
 	r.finish(res)
 }
